@@ -995,7 +995,9 @@ class Trace:
     def __init__(self, sched, res):
         self.s = sched
         self.r = res
-        self.obs = res.get("obs", [])
+        # what happens in the harness's own epilogue (everything is released,
+        # the client is closed) is not judged by the monitors
+        self.obs = [o for o in res.get("obs", []) if o.get("b", 0) < len(sched["bursts"])]
         self.rt = sched["cfg"].get("rt_ms", RT)
         self.mode = sched["cfg"].get("cancel_mode", "") or "killnowait"
         self.ops = {}
@@ -1108,10 +1110,12 @@ def monitor_c16(sched, res):
                 if not cancelled:
                     v("call timed out without cancellation", "op %d: Call returned ErrReplyTimeout but its context was never cancelled" % o)
                 else:
-                    t_c = cancels_sent[req][0][1]["t"]
+                    # (a CallProgressive feeder may have sent a CANCEL of its own earlier)
+                    at = [c for c in cancels_sent[req] if ct is None or c[1]["t"] >= ct] or cancels_sent[req]
+                    t_c = at[0][1]["t"]
                     if r["t"] != t_c + T.rt:
                         v("timeout at the wrong instant", "op %d: timed out at %d, CANCEL sent at %d, response timeout %d" % (o, r["t"], t_c, T.rt))
-                    early = [x for x in before if x[3]["t"] == "error" and t_c <= x[2] < t_c + T.rt and x[0] > cancels_sent[req][0][0]]
+                    early = [x for x in before if x[3]["t"] == "error" and t_c <= x[2] < t_c + T.rt and x[0] > at[0][0]]
                     if early:
                         v("reply in time but timed out", "op %d: the ERROR answering its CANCEL was sent at %d, before the timeout at %d" % (o, early[0][2], r["t"]))
             else:
@@ -1196,8 +1200,9 @@ def monitor_c16(sched, res):
             it = iter(want)
             if not all(any(g == w for w in it) for g in got):
                 v("invocation chunks out of order", "request %d: handler saw %s, router sent %s" % (req, got, want))
-            if fin and any(p > fin[0][0] for p, _ in calls):
-                late = [ob for p, ob in calls if p > fin[0][0]]
+            # (log order across goroutines means something only across bursts)
+            if fin and any(ob["b"] > fin[0][1]["b"] for p, ob in calls):
+                late = [ob for p, ob in calls if ob["b"] > fin[0][1]["b"]]
                 if not all(ob.get("ctx") for ob in late):
                     v("handler started after the invocation was answered", "request %d" % req)
         for pos, ob in fin:
@@ -1218,7 +1223,8 @@ def monitor_c16(sched, res):
         elif ob["e"] == "rmsg" and ob.get("typ") == "interrupt" and ob.get("req") in running:
             req = ob.get("req")
             b = ob["b"]
-            if not any(x["e"] == "invctx" and x.get("req") == req and x["b"] == b for x in T.obs[pos:]):
+            # (the handler returning on its own at the same instant is a fair race)
+            if not any(x["e"] in ("invctx", "invret") and x.get("req") == req and x["b"] == b for x in T.obs[pos:]):
                 v("INTERRUPT did not cancel the handler's context", "request %d, burst %d" % (req, b))
             running.pop(req, None)
     return bad
